@@ -71,11 +71,23 @@ func (u unifier) GetTag(ctx context.Context, repo string, tagName string) (ocire
 	case r0.err != nil && r1.err != nil:
 		return r0.get()
 	case r0.err == nil:
-		return r0.get()
+		return u.getTagFromOne(ctx, repo, tagName, r0, u.r1)
 	case r1.err == nil:
-		return r1.get()
+		return u.getTagFromOne(ctx, repo, tagName, r1, u.r0)
 	}
 	panic("unreachable")
+}
+
+// getTagFromOne returns the result r of a GetTag that has succeeded in one
+// registry only, unless the other registry has the tag too, pointing at
+// something else (it can have the tag without being able to produce its
+// content: a tag is left behind when its manifest is deleted).
+func (u unifier) getTagFromOne(ctx context.Context, repo, tagName string, r t2[ociregistry.BlobReader], other ociregistry.Interface) (ociregistry.BlobReader, error) {
+	if desc, err := other.ResolveTag(ctx, repo, tagName); err == nil && desc.Digest != r.x.Descriptor().Digest {
+		r.close()
+		return nil, fmt.Errorf("conflicting results for tag")
+	}
+	return r.get()
 }
 
 func (u unifier) ResolveBlob(ctx context.Context, repo string, digest ociregistry.Digest) (ociregistry.Descriptor, error) {
